@@ -17,10 +17,10 @@ META = dict(
     text="For 9 potential kinds, 4 slicings (1-4 slices) and both exit-plane settings, every window [first, last) is generated and built lazily and "
          "eagerly and compared slice by slice with the corresponding part of the full sequence; ensemble members are compared between lazy and "
          "eager builds and with independently built single-configuration potentials.",
-    note="Bound: <= 4 slices (CrystalPotential: 2 unit slices x 2 repetitions), <= 3 configurations, 16x12 grid. Identical arithmetic: tolerance 1e-6 of max V.",
+    note="Bound: <= 4 slices quick / 8 thorough (CrystalPotential: 2 unit slices x 2 or 3 repetitions), exit planes {None, 1} quick + {2, (0,), (0,1)} thorough, <= 3 configurations, 16x12 grid. Identical arithmetic: tolerance 1e-6 of max V.",
 )
 RTOL = 1e-6
-SLICINGS = {1: 4.0, 2: 2.0, 3: [1.5, 1.0, 1.5], 4: 1.0}
+SLICINGS = {1: 4.0, 2: 2.0, 3: [1.5, 1.0, 1.5], 4: 1.0, 5: 0.8, 6: [0.5, 0.5, 1.0, 1.0, 0.5, 0.5], 8: 0.5}
 KINDS = ["atoms", "finite", "array", "fp1", "fp2", "fp3", "ae2", "crystal", "crystal_fp"]
 
 
@@ -31,20 +31,24 @@ def make(kind, n, ep):
     st = SLICINGS[n]
     st = tuple(st) if isinstance(st, list) else st
     if kind in ("crystal", "crystal_fp"):
-        if n not in (2, 4):
+        if n not in (2, 4, 6):
             return None
-        ust = 2.0 if n == 2 else 1.0  # unit cell A0 is 2 A high: 1 or 2 unit slices, repeated twice along z
+        ust = 2.0 if n == 2 else 1.0  # unit cell A0 is 2 A high: 1 or 2 unit slices, repeated twice (n = 6: three times) along z
+        reps = (1, 1, 3 if n == 6 else 2)
+        ep = tuple(ep) if isinstance(ep, list) else ep
         if kind == "crystal":
-            return abtem.CrystalPotential(abtem.Potential(U.atoms("A0"), gpts=U.GPTS, slice_thickness=ust), (1, 1, 2), exit_planes=ep)
+            return abtem.CrystalPotential(abtem.Potential(U.atoms("A0"), gpts=U.GPTS, slice_thickness=ust), reps, exit_planes=ep)
         fp = abtem.FrozenPhonons(U.atoms("A0"), 2, 0.1, seed=(1, 2))
-        return abtem.CrystalPotential(abtem.Potential(fp, gpts=U.GPTS, slice_thickness=ust), (1, 1, 2), seeds=(5, 6), exit_planes=ep)
+        return abtem.CrystalPotential(abtem.Potential(fp, gpts=U.GPTS, slice_thickness=ust), reps, seeds=(5, 6), exit_planes=ep)
     return U.potential(kind, ep, slice_thickness=st)
 
 
 def check(ctx):
     cases = []
-    for kind, n, ep in itertools.product(KINDS, (1, 2, 3, 4), (None, 1)):
-        if kind.startswith("crystal") and n not in (2, 4):
+    for kind, n, ep in itertools.product(KINDS, (1, 2, 3, 4) if ctx.quick else (1, 2, 3, 4, 5, 6, 8), (None, 1) if ctx.quick else (None, 1, 2, [0], [0, 1])):
+        if kind.startswith("crystal") and n not in (2, 4, 6):
+            continue
+        if isinstance(ep, list) and max(ep) >= n or (isinstance(ep, int) and ep > n):
             continue
         cases.append({"kind": kind, "n": n, "ep": ep})
     ctx.run(cases, "run_case", rule="one case per (kind, number of slices, exit planes); inside: every window first < last, lazy and eager; "
